@@ -11,10 +11,11 @@ pub(crate) mod ref_dis;
 pub(crate) mod ref_table;
 mod tail;
 pub(crate) mod ref_lex;
-mod head;
+pub(crate) mod head;
 pub(crate) mod guard;
 mod step;
-mod emit;
+pub(crate) mod emit;
 mod table;
 mod mutc;
 mod esc_native;
+mod purity;
